@@ -57,7 +57,8 @@ UFUNC1 = {"np.logical_not": "inv", "np.invert": "inv", "np.bitwise_not": "inv", 
           "operator.not_": "not"}
 # module spellings: `import numpy as xp`, `from operator import gt` resolve to the dotted names the rules use
 CANON_MODULES = {"numpy": "np", "scipy.linalg": "la", "operator": "operator", "copy": "copy", "functools": "functools", "contextlib": "contextlib",
-                 "types": "types", "math": "math", "itertools": "itertools", "builtins": ""}
+                 "types": "types", "math": "math", "itertools": "itertools", "builtins": "", "collections": "collections", "typing": "typing",
+                 "dataclasses": "dataclasses"}
 ALLOC = {"np.empty", "np.zeros", "np.ones", "np.full", "np.empty_like", "np.zeros_like", "np.ones_like", "np.full_like"}
 COPIERS = {"copy.copy", "copy.deepcopy", "np.array", "np.copy", "list", "np.ascontiguousarray_copy"}
 # positional parameter names of library functions (so that keyword and positional spellings are one value)
@@ -122,6 +123,10 @@ class _Raise(Exception):
     pass
 
 
+class _KeyError(_Raise):
+    """a lookup that certainly fails: a literal key that a dict created on the path does not hold"""
+
+
 class _LoopCtl(Exception):
     pass
 
@@ -164,6 +169,7 @@ class Path:
         self.loops = []
         self.depth = 0
         self.trycount = {}
+        self.yields = []        # collectors of the generator functions being evaluated
         self.nonnull = set()    # opaque values a member of which was read on this path
         self.fndefaults = {}    # nested function -> values of its defaults (evaluated at the `def`)
 
@@ -180,8 +186,8 @@ class Path:
         if t[0] == "ref":
             o = self.heap[t[1]]
             return ("new", o.kind, self.norm(o.origin, _d + 1))
-        if t[0] in ("c", "s", "g", "fn"):
-            return t
+        if t[0] in ("c", "s", "g", "fn", "rectype"):
+            return t[:2] if t[0] == "rectype" else t
         if t[0] == "call":
             return ("call", t[1], tuple(self.norm(a, _d + 1) for a in t[2]), tuple((k, self.norm(v, _d + 1)) for k, v in t[3]))
         return (t[0],) + tuple(self.norm(a, _d + 1) if isinstance(a, tuple) else a for a in t[1:])
@@ -357,6 +363,15 @@ class Path:
         r = self._fold(key)
         if r is None:
             r = self.facts.get(key)
+        if r is None and key[0] == "op" and key[1] == "in" and key[3][0] in ("tup", "lst") and len(key[3]) > 1 and key[2][0] != "ref" \
+                and all(is_const(x) and isinstance(x[1], (str, int)) and not isinstance(x[1], bool) for x in key[3][1:]):
+            # x in (c1, c2, ...) is the chain x == c1 or x == c2 or ...: decided from (and recorded as) the equality facts of the path
+            r = False
+            for x in key[3][1:]:
+                if self._truth(op("eq", key[2], x)):
+                    r = True
+                    break
+            return r if pol else (not r)
         if r is None and key[0] == "op" and key[1] == "eq":
             # x == c1 known true  =>  x == c2 false
             a, b = key[2], key[3]
@@ -417,6 +432,10 @@ class Path:
         v = self.I.modconst(rel, name)
         if v is not None:
             return self.eval(v, Frame(rel=rel))
+        if name in m.classes and "." not in name:
+            rt = self._rectype_of_class(m.classes[name], Frame(rel=rel))
+            if rt is not None:
+                return rt
         if name in ("None", "True", "False"):
             return ("c", {"None": None, "True": True, "False": False}[name])
         al = self.I.modimports(rel).get(name)
@@ -503,6 +522,20 @@ class Path:
             return self._fnval(self._lambda_def(n, fr), fr)
         if isinstance(n, (ast.ListComp, ast.DictComp, ast.SetComp, ast.GeneratorExp)):
             return self._comprehension(n, fr)
+        if isinstance(n, (ast.Yield, ast.YieldFrom)) and self.yields:
+            col = self.yields[-1]
+            v = NONE if n.value is None else self.eval(n.value, fr)
+            if len(self.loops) > col["loops"]:
+                col["ok"] = False           # produced inside a loop over data: the sequence is not a literal table
+            elif isinstance(n, ast.Yield):
+                col["items"].append(v)
+            else:
+                items = self._iter_items(v)
+                if items is None:
+                    col["ok"] = False
+                else:
+                    col["items"].extend(items)
+            return NONE
         raise Unsupported(f"expression {type(n).__name__}")
 
     def _decidable(self, n, fr):
@@ -682,6 +715,8 @@ class Path:
                 return st.items[i]
             if st.kind == "arr" and i in st.content:
                 return ("ld", b, i, st.content[i])
+            if st.kind == "dict" and st.closed and is_const(i) and self.obj(b) is not None and all(is_const(x) for x in st.items):
+                raise _KeyError()
         if i[0] == "slice" and self.is_list(b):
             return self._alloc("list", ("idx", b, i))
         return self.I.pin(self, ("idx", self._cur(b) if b[0] in ("s", "elem") else b, i))
@@ -728,6 +763,11 @@ class Path:
             # functools.partial(g, *a, **k)(*b, **l) is g(*a, *b, **{**k, **l})
             later = {k for k, _ in kws}
             return self.apply(f[1], list(f[2]) + list(args), [(k, v) for k, v in f[3] if k not in later or k == "**"] + list(kws), n, fr)
+        if f[0] == "rectype":
+            r = self._make_record(f, args, kws, fr)
+            if r is not None:
+                return r
+            return self._opaque("<record " + f[1] + ">", args, kws, n)
         if f[0] == "fn":
             fdef, frame, bound = self.fnreg[f[1]]
             if fdef.name not in self.I.noinline and self.depth < 8 and not any(a[0] == "star" for a in args):
@@ -755,6 +795,47 @@ class Path:
             name = "<value>"
             args = [f] + args
         return self._builtin(name, args, kws, n)
+
+    def _make_record(self, f, args, kws, fr):
+        """an instance of a namedtuple / NamedTuple / dataclass with plain fields: a namespace whose members are also its items by position"""
+        _, tname, fields, dflt = f
+        if any(a[0] == "star" for a in args) or any(k == "**" for k, _ in kws) or len(args) > len(fields):
+            return None
+        vals = dict(zip(fields, args))
+        for k, v in kws:
+            if k not in fields or k in vals:
+                return None
+            vals[k] = v
+        for k, d in dflt:
+            vals.setdefault(k, d)
+        if set(vals) != set(fields):
+            return None
+        r = self._alloc("ns", ("call", "record:" + tname, tuple(vals[k] for k in fields), ()))
+        o = self.obj(r)
+        for i, k in enumerate(fields):
+            o.fields[k] = vals[k]
+            o.items[("c", i)] = vals[k]
+        return r
+
+    def _rectype_of_class(self, c, fr):
+        """('rectype', name, fields, defaults) of `class X(NamedTuple)` / `@dataclass class X` whose body is annotated fields only, else None"""
+        bases = {dotted(b) for b in c.bases}
+        decos = {dotted(d.func if isinstance(d, ast.Call) else d) for d in c.decorator_list}
+        if not (bases & {"NamedTuple", "typing.NamedTuple"} or decos & {"dataclass", "dataclasses.dataclass"}):
+            return None
+        fields, dflt = [], []
+        for st in c.body:
+            if isinstance(st, ast.Expr) and isinstance(st.value, ast.Constant):
+                continue
+            if isinstance(st, ast.Pass):
+                continue
+            if isinstance(st, ast.AnnAssign) and isinstance(st.target, ast.Name):
+                fields.append(st.target.id)
+                if st.value is not None:
+                    dflt.append((st.target.id, self.eval(st.value, fr)))
+                continue
+            return None
+        return ("rectype", c.name, tuple(fields), tuple(dflt))
 
     def _inline(self, fdef, frame, bound, args, kws, fr, defaults=None):
         a = fdef.args
@@ -813,6 +894,11 @@ class Path:
         nf.locals.update(env)
         self.depth += 1
         saved_loops = self.loops
+        gen = _is_generator(fdef, self.I._mc)
+        if gen:
+            # a generator function whose body writes nothing is the table of what it yields (evaluated when it is called)
+            self.yields.append({"items": [], "ok": True, "loops": len(self.loops)})
+            nev = len(self.events)
         try:
             self.block(fdef.body, nf)
             r = NONE
@@ -821,6 +907,12 @@ class Path:
         finally:
             self.depth -= 1
             self.loops = saved_loops
+            col = self.yields.pop() if gen else None
+        if gen:
+            lazy = any(e.kind in ("store", "setattr", "inplace") for e in self.events[nev:])
+            if col["ok"] and not lazy:
+                return ("tup",) + tuple(col["items"])
+            return ("call", "<generator>", (("c", fdef.name),) + tuple(args), ())
         return r
 
     def _opaque(self, name, args, kws, n):
@@ -875,6 +967,11 @@ class Path:
                 self.obj(r).items.update(o.items)
                 self.obj(r).closed = o.closed
             return r
+        if meth == "update" and len(args) == 1 and not kws and recv[0] == "attr" and recv[2] == "__dict__" and args[0][0] == "attr" and args[0][2] == "__dict__":
+            o = self.obj(recv[1])
+            if o is not None and o.kind == "ns" and o.proto is None and not o.fields:
+                o.proto = args[0][1]            # vars(x).update(vars(y)) on an empty namespace: x gets y's members (as SimpleNamespace(**vars(y)))
+                return NONE
         if meth == "update" and len(args) <= 1:
             st = self._st(recv, create=True)
             if st.kind in ("dict", "opaque") and all(k != "**" for k, _ in kws):
@@ -909,8 +1006,17 @@ class Path:
                     for k, v in kws:
                         self._store(recv, ("c", k), v, n)
                     return NONE
+        if meth == "fill" and len(args) + len(kws) == 1 and (args or kws[0][0] == "value") and not self.is_list(recv):
+            # view.fill(v) is view[...] = v: a store into whatever the receiver is a view of
+            self._store_into(recv, args[0] if args else kws[0][1], n)
+            return NONE
+        if meth == "__setitem__" and len(args) == 2 and not kws:
+            self._store(recv, args[0], args[1], n)
+            return NONE
         if meth == "nonzero" and not args:
             return self._opaque(".nonzero", [recv], [], n)
+        if meth in ("ravel", "flatten", "squeeze") and not args and not kws and recv[0] == "call" and recv[1] == "np.argwhere" and len(recv[2]) == 1 and not recv[3]:
+            return self._load(self._opaque(".nonzero", list(recv[2]), [], n), ("c", 0))         # np.argwhere(mask).ravel(): positions of a 1-D mask
         if meth in ("items", "keys", "values") and not args:
             st = self._st(recv)
             if st is not None and st.kind == "dict" and st.closed:
@@ -922,11 +1028,42 @@ class Path:
         if (name in UFUNC2 and len(args) == 2 or name in UFUNC1 and len(args) == 1) and len(kws) == 1 and kws[0][0] == "out" and kws[0][1] != NONE:
             val = self._binop(UFUNC2[name], args[0], args[1]) if len(args) == 2 else op(UFUNC1[name], args[0])
             out = kws[0][1]
-            if out[0] in ("idx", "ld"):
-                self._store(out[1], out[2], val, n, aug=True)
-            else:
-                self._store(out, ("slice", NONE, NONE, NONE), val, n, aug=True)
+            if out[0] == "tup" and len(out) == 2:
+                out = out[1]                    # out=(view,)
+            self._store_into(out, val, n, aug=True)
             return out
+        if name in UFUNC2 and len(args) == 3 and not kws and args[2] != NONE:
+            # the third positional argument of a binary ufunc is `out`
+            self._store_into(args[2], self._binop(UFUNC2[name], args[0], args[1]), n, aug=True)
+            return args[2]
+        if name == "np.copyto" and len(args) == 2 and not kws:
+            self._store_into(args[0], args[1], n)
+            return NONE
+        if name == "np.copyto" and len(args) == 2 and len(kws) == 1 and kws[0][0] == "where":
+            # np.copyto(dst, src, where=m) is dst[m] = src[m] (a scalar source is written as it is)
+            m_ = kws[0][1]
+            src = args[1] if (is_const(args[1]) or args[1][0] == "g") else self._load(args[1], m_)
+            dst = args[0]
+            if dst[0] in ("idx", "ld") and not self.is_list(dst[1]) and basic_index(self, dst[2], self.I.kinds) is True:
+                col = dst[2]
+                if col[0] == "tup" and len(col) == 3 and col[1] == ("slice", NONE, NONE, NONE):
+                    self._store(dst[1], ("tup", m_, col[2]), src, n)          # a column view at the rows m
+                    return NONE
+            if dst[0] in ("ref", "s", "attr"):
+                self._store(dst, m_, src, n)
+                return NONE
+        if (name.startswith("np.") or name.startswith("la.")) and any(k == "out" and v != NONE for k, v in kws) and name not in ALLOC:
+            # f(..., out=view): the value f(...) is written into the view
+            out = [v for k, v in kws if k == "out"][0]
+            if out[0] == "tup" and len(out) == 2:
+                out = out[1]
+            if out[0] != "tup":
+                val = self._builtin(name, args, [(k, v) for k, v in kws if k != "out"], n)
+                self._store_into(out, val, n, aug=True)
+                return out
+        if name == "np.putmask" and len(args) == 3 and not kws and (is_const(args[2]) or args[2][0] == "g"):
+            self._store(args[0], args[1], args[2], n)           # a scalar written where the mask is true
+            return NONE
         if name in UFUNC2 and len(args) == 2 and not kws:
             return self._binop(UFUNC2[name], args[0], args[1])
         if name in UFUNC1 and len(args) == 1 and not kws:
@@ -940,6 +1077,8 @@ class Path:
             return self._opaque(".nonzero", args, [], n)
         if name == "np.flatnonzero" and len(args) == 1 and not kws:
             return self._load(self._opaque(".nonzero", args, [], n), ("c", 0))
+        if name in ("np.ravel", "np.squeeze") and len(args) == 1 and not kws and args[0][0] == "call" and args[0][1] == "np.argwhere" and len(args[0][2]) == 1:
+            return self._load(self._opaque(".nonzero", list(args[0][2]), [], n), ("c", 0))     # positions of a 1-D mask
         # ---- literal tables: enumerate / zip / range / map / reversed over known content are known content
         if name == "enumerate" and 1 <= len(args) <= 2 and not kws and self._iter_items(args[0]) is not None and \
                 (len(args) == 1 or (is_const(args[1]) and isinstance(args[1][1], int))):
@@ -986,6 +1125,16 @@ class Path:
             return ("tup",) + tuple(self.apply(args[0], [c[k] for c in cols], [], n, None) for k in range(min(len(c) for c in cols)))
         if name in ("tuple", "list") and len(args) == 1 and not kws and args[0][0] in ("tup", "lst") and name == "tuple":
             return ("tup",) + tuple(args[0][1:])
+        if name == "collections.namedtuple" and len(args) == 2 and is_const(args[0]) and all(k == "defaults" for k, _ in kws):
+            fl = args[1]
+            names = None
+            if is_const(fl) and isinstance(fl[1], str):
+                names = fl[1].replace(",", " ").split()
+            elif fl[0] in ("tup", "lst") and all(is_const(x) and isinstance(x[1], str) for x in fl[1:]):
+                names = [x[1] for x in fl[1:]]
+            dv = kws[0][1] if kws else ("tup",)
+            if names is not None and dv[0] in ("tup", "lst") and len(dv) - 1 <= len(names):
+                return ("rectype", str(args[0][1]), tuple(names), tuple(zip(names[len(names) - (len(dv) - 1):], dv[1:])))
         if name == "functools.partial" and args:
             return ("partial", args[0], tuple(args[1:]), tuple(kws))
         if name == "dict" and len(args) == 1:
@@ -1096,6 +1245,19 @@ class Path:
                 st.content[idx] = val
         self._ev("store", target=base, index=idx, value=val, node=node, aug=aug)
 
+    def _store_into(self, tgt, val, node, aug=False):
+        """`tgt[...] = val` where tgt is a value: a view (basic indexing) writes through to what it was taken from, the result of advanced
+        indexing is a temporary copy, anything else is written as a whole"""
+        if tgt[0] in ("idx", "ld") and not self.is_list(tgt[1]):
+            bi = basic_index(self, tgt[2], self.I.kinds)
+            if bi is False:
+                tmp = self._alloc("arr", ("idx", tgt[1], tgt[2]))
+                self._store(tmp, ("slice", NONE, NONE, NONE), val, node, aug=aug)
+                return
+            self._store(tgt[1], tgt[2], val, node, aug=aug)
+        else:
+            self._store(tgt, ("slice", NONE, NONE, NONE), val, node, aug=aug)
+
     def _setattr(self, base, name, val, node, aug=False):
         st = self._st(base, create=True)
         st.fields[name] = val
@@ -1190,6 +1352,26 @@ class Path:
             return True
         raise Unsupported(f"match pattern {type(pat).__name__}")
 
+    def _lookup_probe(self, s, fr):
+        """(key, mapping) when the try body is one statement whose only operation that can raise is the lookup `mapping[key]` of a literal
+        key in a dict, and the first handler catches KeyError / LookupError"""
+        if len(s.body) != 1 or not s.handlers or s.finalbody:
+            return None
+        h = s.handlers[0]
+        if h.type is None or dotted(h.type) not in ("KeyError", "LookupError"):
+            return None
+        st = s.body[0]
+        v = st.value if isinstance(st, (ast.Expr, ast.Assign)) else None
+        if not (isinstance(v, ast.Subscript) and isinstance(v.slice, ast.Constant) and isinstance(v.slice.value, str) and isinstance(v.value, ast.Name)):
+            return None
+        if isinstance(st, ast.Assign) and not all(isinstance(t, ast.Name) for t in st.targets):
+            return None
+        m = self.eval(v.value, fr)
+        o = self.obj(m)
+        if (o is not None and o.kind == "dict") or (m[0] == "s" and self.I.kinds.get(m[1]) == "dict"):
+            return ("c", v.slice.value), m
+        return None
+
     def block(self, stmts, fr):
         for s in stmts:
             self.stmt(s, fr)
@@ -1222,9 +1404,18 @@ class Path:
             else:
                 cur = self.eval(t, fr)
                 v = self.eval(s.value, fr)
-                if not is_const(cur):
-                    self._ev("inplace", target=cur, value=self._binop(name, cur, v), node=s)
-                fr.locals[t.id] = self._binop(name, cur, v)
+                o = self.obj(cur)
+                if (cur[0] in ("idx", "ld") and not self.is_list(cur[1]) and not (is_const(cur[2]) and isinstance(cur[2][1], str))
+                        and basic_index(self, cur[2], self.I.kinds) is True and _has_slice(cur[2]) and cur[1][0] in ("ref", "s", "attr", "idx", "ld")
+                        and not (cur[1][0] == "s" and self.I.kinds.get(cur[1][1]) in ("dict", "scalar", "count", "str"))) \
+                        or (o is not None and o.kind == "arr"):
+                    # the name is bound to an array the path created or to a view (basic indexing): the operator works in place, i.e. it
+                    # is a store into what the view was taken from, and the name stays bound to the same view
+                    self._store_into(cur, self._binop(name, self._load(cur[1], cur[2]) if cur[0] in ("idx", "ld") else cur, v), s, aug=True)
+                else:
+                    if not is_const(cur):
+                        self._ev("inplace", target=cur, value=self._binop(name, cur, v), node=s)
+                    fr.locals[t.id] = self._binop(name, cur, v)
         elif isinstance(s, ast.Expr):
             self.eval(s.value, fr)
         elif isinstance(s, ast.If):
@@ -1296,14 +1487,29 @@ class Path:
         elif isinstance(s, ast.Try):
             k = self.trycount.get(id(s), 0)
             self.trycount[id(s)] = k + 1
-            raises = s.handlers and not self._truth(("call", "<completes>", (("c", getattr(s, "lineno", 0)), ("c", k)), ()))
+            probe = self._lookup_probe(s, fr)
+            if probe is not None:
+                # try: d[key] ... except KeyError: ...   completes exactly when the key is present: the fact is `key in d`
+                raises = not self._truth(("op", "in", probe[0], probe[1]))
+            else:
+                raises = s.handlers and not self._truth(("call", "<completes>", (("c", getattr(s, "lineno", 0)), ("c", k)), ()))
             if raises:
                 if s.handlers[0].name:
                     fr.locals[s.handlers[0].name] = ("s", "<exception>")
                 self.block(s.handlers[0].body, fr)
             else:
-                self.block(s.body, fr)
-                self.block(s.orelse, fr)
+                try:
+                    self.block(s.body, fr)
+                except _KeyError:
+                    hs = [h for h in s.handlers if h.type is None or dotted(h.type) in ("KeyError", "LookupError", "Exception", "BaseException")]
+                    if not hs:
+                        self.block(s.finalbody, fr)
+                        raise
+                    if hs[0].name:
+                        fr.locals[hs[0].name] = ("s", "<exception>")
+                    self.block(hs[0].body, fr)
+                else:
+                    self.block(s.orelse, fr)
             self.block(s.finalbody, fr)
         elif isinstance(s, ast.Return):
             raise _Return(NONE if s.value is None else self.eval(s.value, fr))
@@ -1329,7 +1535,7 @@ class Path:
                 nm = (al.asname or al.name).split(".")[0]
                 fr.locals[nm] = ("g", canon.get(nm, al.asname or al.name))
         elif isinstance(s, ast.ClassDef):
-            fr.locals[s.name] = ("g", s.name)
+            fr.locals[s.name] = self._rectype_of_class(s, fr) or ("g", s.name)
         elif isinstance(s, ast.Match):
             subj = self.eval(s.subject, fr)
             for case in s.cases:
@@ -1362,6 +1568,28 @@ def import_aliases(st):
             elif CANON_MODULES.get(st.module + "." + al.name):
                 out[al.asname or al.name] = CANON_MODULES[st.module + "." + al.name]
     return out
+
+
+def _is_generator(fdef, cache):
+    key = ("gen", id(fdef))
+    if key not in cache:
+        found = False
+        stack = list(fdef.body)
+        while stack:
+            x = stack.pop()
+            if isinstance(x, (ast.Yield, ast.YieldFrom)):
+                found = True
+                break
+            if isinstance(x, (ast.FunctionDef, ast.AsyncFunctionDef, ast.Lambda, ast.ClassDef)):
+                continue
+            stack.extend(ast.iter_child_nodes(x))
+        cache[key] = found
+    return cache[key]
+
+
+def _has_slice(i):
+    """the index keeps at least one axis (the result is an array view, not an element)"""
+    return i[0] == "slice" or (i[0] == "call" and i[1] == "slice") or (i[0] == "tup" and any(_has_slice(x) for x in i[1:])) or i == ("c", Ellipsis)
 
 
 def _nonneg(t):
@@ -1545,7 +1773,7 @@ def mem(P, t, kinds=None):
     if not isinstance(t, tuple) or not t:
         return set(), True
     k = t[0]
-    if k in ("c", "op", "g", "fn", "slice"):
+    if k in ("c", "op", "g", "fn", "slice", "rectype"):
         return set(), True
     if k == "s":
         return ({t} if kinds.get(t[1]) not in ("scalar", "str", "count") else set()), True
@@ -1592,6 +1820,96 @@ def mem(P, t, kinds=None):
 
 def _unpost(t):
     return t[1] if isinstance(t, tuple) and t and t[0] == "post" else t
+
+
+# ---------------------------------------------------------------------------------------------------------------- effects not followed
+# A call that was not followed may have written into its arguments.  Rules that conclude something from the *absence* of a store ("never
+# assigned", "no update at the replaced rows") ask `unfollowed_writes` first: when such a call received the object (or a view of it, or a
+# container that holds it) its content is unknown and the obligation is undecided (exit 2), never a violation.
+PURE_MODULES = ("np.", "la.", "math.", "operator.", "copy.", "functools.", "itertools.", "inspect.", "scipy.", "sp.", "warnings.", "contextlib.",
+                "types.")
+PURE_BUILTINS = _BUILTIN_NAMES - {"setattr", "delattr", "exec", "eval", "next", "vars", "globals", "locals"}
+PURE_METHODS = {"sum", "max", "min", "any", "all", "nonzero", "copy", "astype", "reshape", "ravel", "squeeze", "transpose", "view", "tolist", "index",
+                "count", "items", "keys", "values", "get", "argmax", "argmin", "mean", "std", "var", "dot", "take", "flatten", "conj", "conjugate",
+                "cumsum", "cumprod", "prod", "round", "clip", "join", "format", "split", "strip", "startswith", "endswith", "lower", "upper", "replace",
+                "swapaxes", "item", "searchsorted", "repeat", "diagonal", "trace", "ptp", "argsort", "tobytes", "__getitem__", "__len__", "compress",
+                "choose", "nanmax", "nanmin", "rjust", "ljust", "center", "title", "encode", "decode", "isdigit", "find", "rfind", "partition_str"}
+WRITING_FUNCS = {"np.copyto": (0,), "np.put": (0,), "np.place": (0,), "np.putmask": (0,), "np.fill_diagonal": (0,), "np.put_along_axis": (0,),
+                 "setattr": (0,), "delattr": (0,), "np.random.shuffle": (0,)}
+OVERWRITE_KW = {"overwrite_a": ("a", 0), "overwrite_b": ("b", 1), "overwrite_x": ("x", 0), "overwrite_ab": ("ab", 1)}
+
+
+def written_args(e):
+    """the argument values an unfollowed call may have written into (empty for calls known to be pure)"""
+    name, args, kw = e.name, list(e.args), dict(e.kws)
+    out = []
+    if kw.get("out") not in (None, NONE):
+        o = kw["out"]
+        out += list(o[1:]) if o[0] == "tup" else [o]
+    for kname, (pname, pos) in OVERWRITE_KW.items():
+        v = kw.get(kname)
+        if v is not None and not (is_const(v) and not v[1]):
+            a = args[pos] if len(args) > pos else kw.get(pname)
+            if a is not None:
+                out.append(a)
+    if name in WRITING_FUNCS:
+        out += [args[i] for i in WRITING_FUNCS[name] if i < len(args)]
+    elif name.startswith("np.") and name.endswith(".at") and args:
+        out.append(args[0])                                     # np.add.at(a, idx, v)
+    elif name.startswith("."):
+        if name[1:] not in PURE_METHODS:
+            recv_known_array = name in (".sort", ".fill", ".resize", ".put", ".itemset", ".partition", ".byteswap", ".setfield", ".setflags")
+            out += args[:1] if recv_known_array else args + list(kw.values())
+    elif name.startswith(PURE_MODULES) or name in PURE_BUILTINS or name in ("SimpleNamespace", "slice", "getattr_fn"):
+        pass
+    else:
+        out += args + list(kw.values())                         # a function of the package (or a value) that was not followed
+    return out
+
+
+def _reach(P, t, depth=0):
+    """memory roots reachable from a value: its own storage and, for containers / namespaces created on the path, what they hold"""
+    roots, _ = mem(P, t)
+    roots = set(roots)
+    o = P.obj(t) if isinstance(t, tuple) and t and t[0] == "ref" else None
+    if o is not None and depth < 3:
+        for v in list(o.fields.values()) + list(o.items.values()) + list(o.content.values()):
+            if isinstance(v, tuple):
+                roots |= _reach(P, v, depth + 1)
+        if o.proto is not None and isinstance(o.proto, tuple) and o.proto and o.proto[0] != "deep":
+            roots |= _reach(P, o.proto, depth + 1)
+    if isinstance(t, tuple) and t and t[0] in ("tup", "lst"):
+        for x in t[1:]:
+            roots |= _reach(P, x, depth + 1)
+    return roots
+
+
+def unfollowed_writes(P, t, since=0, family=False, pure=()):
+    """the unfollowed calls on the path that may have written into the storage of value t (with family=True also into a member or a view
+    of a member of t: `helper(t.x[:, k])`)"""
+    mine, _ = mem(P, t)
+    nt = P.norm(t)
+    hits = []
+    for e in P.events:
+        if e.kind != "call" or e.seq < since or e.name in pure:
+            continue
+        for a in written_args(e):
+            if not isinstance(a, tuple) or not a:
+                continue
+            if (mine & _reach(P, a)) or a == t or (family and _contains(P.norm(a), nt)):
+                hits.append(e)
+                break
+    return hits
+
+
+def _contains(t, x):
+    if t == x:
+        return True
+    if not isinstance(t, tuple) or not t or t[0] in ("c", "s", "g", "fn"):
+        return False
+    if t[0] == "call":
+        return any(_contains(a, x) for a in t[2]) or any(_contains(v, x) for _, v in t[3])
+    return any(_contains(a, x) for a in t[1:] if isinstance(a, tuple))
 
 
 def free_syms(t, out=None):
